@@ -121,7 +121,7 @@ fn check_value(sink: &mut Sink, v: &Val, cell_pat: usize) {
         let tags = [shape, ptag.as_str(), neg_tag, mag];
         let clause = if pat.pct { "percentage" } else { "fixed-decimal" };
         sink.count(&format!("shape {}", shape), 1);
-        let mut judge = |got: Result<String, String>, via: &str, sink: &mut Sink| {
+        let judge = |got: Result<String, String>, via: &str, sink: &mut Sink| {
             let case = json!({"value": text, "pattern": pat.code, "via": via});
             match got {
                 Err(m) => {
@@ -294,7 +294,7 @@ impl Space for Texts {
         let t = if plain { PLAIN_TEXTS[i] } else { NUMERIC_LOOKING_TEXTS[i - PLAIN_TEXTS.len()] };
         let tag = if plain { "text:plain" } else { "text:numeric-looking" };
         let case = self.describe(i as u64);
-        let mut judge = |got: Result<String, String>, via: &str, sink: &mut Sink| {
+        let judge = |got: Result<String, String>, via: &str, sink: &mut Sink| {
             sink.evaluations += 1;
             match got {
                 Err(m) => sink.violations.push(Violation::new("general-text", &format!("panic:{}", panic_class(&m)), &[tag], case.clone(), m)),
